@@ -257,8 +257,13 @@ inline bool should_be_separated_(const Item& a, const Item& b) {
 inline void write_cif_block_to_stream(std::ostream& os_, const Block& block,
                                       WriteOptions options=WriteOptions()) {
   BufOstream os(os_);
-  os.write("data_", 5);
-  os << block.name;
+  if (block.name.empty()) {
+    // a block without name was read from global_ (bare data_ gives name " ")
+    os.write("global_", 7);
+  } else {
+    os.write("data_", 5);
+    os << block.name;
+  }
   os.put('\n');
   if (options.misuse_hash)
     os.write("#\n", 2);
